@@ -504,7 +504,9 @@ double cmb_random_std_gamma(const double shape)
 
         double w = v * v * v;
         double u = cmb_random();
+        /* u == 0 is certain acceptance (log(0) = -inf), without evaluating log(0) */
         if ((u < 1.0 - 0.331 * (x * x) * (x * x))
+            || (u == 0.0)
             || (log(u) < (0.5 * x * x) + (d * (1.0 - w + log(w))))) {
             const double ret = d * w;
             cmb_assert_debug(ret >= 0.0);
